@@ -2,15 +2,17 @@
 # mutation_campaign.sh [parallelism]: the ten mutation.sh invocations behind DESIGN.md §10.3.
 cd "$(dirname "$0")" || exit 2
 P="${1:-3}"
-./mutation.sh dhcpv4/nclient4/client.go "receiveLoop,send,SendAndRead,retryFn,Close,isClosed" "$P" C10 C11 C12
+# SURV=1: only re-run what the existing reports in ../mutation list as SURVIVED (after the checks were strengthened)
+surv() { [ "${SURV:-}" = 1 ] && echo "../mutation/$1" || echo ""; }
+[ "${SURV:-}" = 1 ] && cp ../mutation/dhcpv4_nclient4_client.go.core.tsv /tmp/.surv_$$.tsv; ONLY_SURVIVORS=$([ "${SURV:-}" = 1 ] && echo /tmp/.surv_$$.tsv) ./mutation.sh dhcpv4/nclient4/client.go "receiveLoop,send,SendAndRead,retryFn,Close,isClosed" "$P" C10 C11 C12
 mv ../mutation/dhcpv4_nclient4_client.go.tsv ../mutation/dhcpv4_nclient4_client.go.core.tsv
-./mutation.sh dhcpv6/nclient6/client.go "receiveLoop,send,SendAndRead,retryFn,Close,RapidSolicit,Solicit,Request" "$P" C10 C11 C12 C13
-./mutation.sh dhcpv4/nclient4/client.go "DiscoverOffer,Request,RequestFromOffer,IsMessageType,IsCorrectServer,IsAll" "$P" C13
+ONLY_SURVIVORS=$(surv dhcpv6_nclient6_client.go.tsv) ./mutation.sh dhcpv6/nclient6/client.go "receiveLoop,send,SendAndRead,retryFn,Close,RapidSolicit,Solicit,Request" "$P" C10 C11 C12 C13
+[ "${SURV:-}" = 1 ] && cp ../mutation/dhcpv4_nclient4_client.go.exchange.tsv /tmp/.surv_$$.tsv; ONLY_SURVIVORS=$([ "${SURV:-}" = 1 ] && echo /tmp/.surv_$$.tsv) ./mutation.sh dhcpv4/nclient4/client.go "DiscoverOffer,Request,RequestFromOffer,IsMessageType,IsCorrectServer,IsAll" "$P" C13
 mv ../mutation/dhcpv4_nclient4_client.go.tsv ../mutation/dhcpv4_nclient4_client.go.exchange.tsv
-./mutation.sh dhcpv4/nclient4/lease.go "Release,Renew" "$P" C13
-./mutation.sh dhcpv4/modifiers.go "" "$P" C13
-./mutation.sh dhcpv6/dhcpv6message.go "NewSolicit,NewRequestFromAdvertise,NewAdvertiseFromSolicit" "$P" C13
-./mutation.sh dhcpv4/nclient4/conn_unix.go "ReadFrom,WriteTo,udpMatch" "$P" C18
-./mutation.sh dhcpv4/nclient4/ipv4.go "" "$P" C18
-./mutation.sh dhcpv4/server4/server.go "Serve,Close" "$P" C14
-./mutation.sh dhcpv6/server6/server.go "Serve,Close" "$P" C14
+ONLY_SURVIVORS=$(surv dhcpv4_nclient4_lease.go.tsv) ./mutation.sh dhcpv4/nclient4/lease.go "Release,Renew" "$P" C13
+ONLY_SURVIVORS=$(surv dhcpv4_modifiers.go.tsv) ./mutation.sh dhcpv4/modifiers.go "" "$P" C13
+ONLY_SURVIVORS=$(surv dhcpv6_dhcpv6message.go.tsv) ./mutation.sh dhcpv6/dhcpv6message.go "NewSolicit,NewRequestFromAdvertise,NewAdvertiseFromSolicit" "$P" C13
+ONLY_SURVIVORS=$(surv dhcpv4_nclient4_conn_unix.go.tsv) ./mutation.sh dhcpv4/nclient4/conn_unix.go "ReadFrom,WriteTo,udpMatch" "$P" C18
+ONLY_SURVIVORS=$(surv dhcpv4_nclient4_ipv4.go.tsv) ./mutation.sh dhcpv4/nclient4/ipv4.go "" "$P" C18
+ONLY_SURVIVORS=$(surv dhcpv4_server4_server.go.tsv) ./mutation.sh dhcpv4/server4/server.go "Serve,Close" "$P" C14
+ONLY_SURVIVORS=$(surv dhcpv6_server6_server.go.tsv) ./mutation.sh dhcpv6/server6/server.go "Serve,Close" "$P" C14
